@@ -141,6 +141,10 @@ def ev(e, env):
             recv = ev(e.func.value, env)
             if isinstance(recv, dict):
                 return recv.get(*[ev(a, env) for a in e.args])
+        if isinstance(e.func, ast.Attribute) and e.func.attr in ("items", "keys", "values") and not e.keywords and not e.args:
+            recv = ev(e.func.value, env)
+            if isinstance(recv, dict):
+                return [tuple(x) if e.func.attr == "items" else x for x in getattr(recv, e.func.attr)()]
         if isinstance(e.func, ast.Attribute) and e.func.attr == "format":
             recv = ev(e.func.value, env)
             if isinstance(recv, str):
@@ -181,6 +185,35 @@ def ev(e, env):
             else:
                 raise Unsupported("f-string part")
         return "".join(out)
+    if isinstance(e, (ast.ListComp, ast.GeneratorExp, ast.SetComp, ast.DictComp)) and not any(g.is_async for g in e.generators) and (
+            len(e.generators) > 1 or isinstance(e, ast.DictComp) or not isinstance(e.generators[0].target, ast.Name)):
+        # several generators / tuple targets / dict comprehensions
+        def bind(t, item, env3):
+            if isinstance(t, ast.Name):
+                env3[t.id] = item
+            elif isinstance(t, (ast.Tuple, ast.List)):
+                item = list(item)
+                if len(item) != len(t.elts):
+                    raise Raised("ValueError")
+                for tt, it_ in zip(t.elts, item):
+                    bind(tt, it_, env3)
+            else:
+                raise Unsupported(U(e)[:60])
+
+        def rec(i, env2):
+            if i == len(e.generators):
+                yield env2
+                return
+            g = e.generators[i]
+            for item in ev(g.iter, env2):
+                env3 = dict(env2)
+                bind(g.target, item, env3)
+                if all(ev(c, env3) for c in g.ifs):
+                    yield from rec(i + 1, env3)
+        if isinstance(e, ast.DictComp):
+            return {ev(e.key, x): ev(e.value, x) for x in rec(0, env)}
+        out = [ev(e.elt, x) for x in rec(0, env)]
+        return frozenset(out) if isinstance(e, ast.SetComp) else out
     if isinstance(e, (ast.ListComp, ast.GeneratorExp, ast.SetComp)) and len(e.generators) == 1 and not e.generators[0].is_async:
         g = e.generators[0]
         if not isinstance(g.target, ast.Name):
